@@ -148,7 +148,8 @@ def cptp_measures(choi, n):
     h = (choi + choi.conj().T) / 2
     herm = float(np.abs(choi - choi.conj().T).max())
     mineig = float(np.linalg.eigvalsh(h).min())
-    pt = np.einsum("ikjk->ij", choi.reshape(d, d, d, d))
+    # trace preservation in the output (x) input ordering of choi_from_unitary: trace over the OUTPUT factor
+    pt = np.einsum("kikj->ij", choi.reshape(d, d, d, d))
     return herm, mineig, float(np.abs(pt - np.eye(d)).max())
 
 
@@ -243,6 +244,9 @@ class C16:
             d = 16
             ch = [[[rng.randint(-64, 64), 64, rng.randint(-64, 64), 64] for _ in range(d)] for _ in range(d)]
             cases.append(dict(kind="tp", n=2, choi=ch))
+        # a trace-preserving but NOT unital channel must be a fixed point of the TP projection (oracle only)
+        for _ in range(6 if quick else 60):
+            cases.append(dict(kind="tpfix", seed=rng.randrange(10**9)))
         # malformed result lists
         for k in range(4 if quick else 30):
             cases.append(dict(kind=rng.choice(["li", "gf", "mle"]), n=1, gates=[["H", 0]], perm=None, target="same",
@@ -302,6 +306,18 @@ class C16:
             cv = lambda v: [[float(np.real(x)), float(np.imag(x))] for x in v]
             return {"parts": [[cv(r) for r in alg._a_matrix], {"ok": cv(nv)}, cv(alg._p_vec(ch)),
                               {"ok": cmat(alg._gradient(ch, nv))}, cmat(alg._tp_proj(ch))]}
+        if k == "tpfix":
+            r = random.Random(c["seed"])
+            g = r.uniform(0.1, 0.9)
+            th, ph = r.uniform(0, 3.1), r.uniform(0, 6.2)
+            u = np.array([[np.cos(th), -np.exp(1j * ph) * np.sin(th)], [np.exp(-1j * ph) * np.sin(th), np.cos(th)]])
+            k0 = u @ np.array([[1, 0], [0, np.sqrt(1 - g)]])
+            k1 = u @ np.array([[0, np.sqrt(g)], [0, 0]])
+            ch = choi_from_unitary(k0) + choi_from_unitary(k1)       # amplitude damping followed by a unitary
+            alg = _mlemod.MLETomographyAlgorithm(1)
+            moved = float(np.abs(alg._tp_proj(ch) - ch).max())
+            tr_out = float(np.abs(np.einsum("kikj->ij", ch.reshape(2, 2, 2, 2)) - np.eye(2)).max())
+            return {"moved": moved, "tr_out": tr_out}
         if k == "tp":
             alg = _mlemod.MLETomographyAlgorithm(1)
             ch = np.array([[complex(Fraction(e[0], e[1]), Fraction(e[2], e[3])) for e in row] for row in c["choi"]])
@@ -457,7 +473,7 @@ class C16:
             return f"run_c16_mleparts {cn(c['n'])} {coq_mat(c['choi'])} {clist(f'({cz(a)}, {cz(b)})' for a, b in c['dat'])}"
         if k == "tp":
             return f"run_c16_tp {cn(c['n'])} {coq_mat(c['choi'])}"
-        if c.get("_skip"):
+        if c.get("_skip") or k == "tpfix":
             return "SL nil"
         req = c.get("_req") or []
         rq = clist(clist(PCTOR[x] for x in s.split(",")) for s in req)
@@ -475,7 +491,7 @@ class C16:
 
     def decode(self, c, sx):
         k = c["kind"]
-        if c.get("_skip"):
+        if c.get("_skip") or k == "tpfix":
             return None
         un = core.unscale
         cm = lambda m: [[[un(e[0]), un(e[1])] for e in row] for row in m]
@@ -514,7 +530,7 @@ class C16:
 
     def compare(self, c, a, b):
         k = c["kind"]
-        if c.get("_skip"):
+        if c.get("_skip") or k == "tpfix":
             return None
         if k in ("static", "init", "mleparts", "tp"):
             return core.approx_equal(a, b, tol=1e-9)
@@ -526,6 +542,13 @@ class C16:
     # ------------------------------------------------------------------ oracle
     def oracle(self, c, obs):
         k = c["kind"]
+        if k == "tpfix":
+            if obs["tr_out"] > 1e-9:
+                return None        # (cannot happen: the channel is built trace preserving)
+            if obs["moved"] > 1e-9:
+                return (f"_tp_proj moves the Choi matrix of a trace-preserving channel by {obs['moved']:.3g}: it does not enforce "
+                        f"trace preservation in the ordering of choi_from_unitary")
+            return None
         if k in ("static", "mleparts", "tp"):
             return None
         if k == "init":
@@ -588,7 +611,7 @@ class C16:
     def nontrivial(self, c, obs):
         if c["kind"] in ("li", "mle", "gf"):
             return len(obs.get("inputs", [])) >= 12
-        return c["kind"] in ("static", "mleparts", "tp")
+        return c["kind"] in ("static", "mleparts", "tp", "tpfix")
 
     def stats(self, cases, recs):
         from collections import Counter
